@@ -134,6 +134,12 @@ class Add(AbstractCommand):
 
     def do_execute(self):
         if self.index is not None:
+            # insert() clamps its position: undo must pop the one really used
+            size = len(self._collection)
+            if self.index < 0:
+                self.index = max(0, size + self.index)
+            else:
+                self.index = min(self.index, size)
             self._collection.insert(self.index, self.value)
         else:
             self.index = len(self._collection)
